@@ -99,10 +99,10 @@ RT = [RU("ttl2", nkeys=2, depth=7), RU("tti2", nkeys=2, depth=7), RU("cap_unit",
       RS("cap2_tti", depth=7), RS("cap2_ttl_tti_w", weights=(1, 5), depth=6), RS("cap_const", weights=(1, 2), depth=6),
       RS("cap1", nkeys=3, depth=6)]
 VQ = [("unsync-small", 120, 40), ("unsync-mid", 30, 120), ("sync-small", 120, 40), ("sync-mid", 30, 120),
-      ("sync-eager", 40, 60), ("sync-far", 150, 16), ("sync-burst", 200, 3), ("sync-stale", 600, 0), ("sync-grow", 100, 2),
+      ("sync-eager", 40, 60), ("sync-far", 150, 16), ("sync-burst", 200, 3), ("sync-stale", 600, 0), ("sync-flush", 14, 0), ("sync-grow", 100, 2),
       ("unsync-batch", 16, 0), ("sync-batch", 2, 0), ("unsync-exp", 500, 30), ("sync-exp", 120, 30)]
 VT = [("unsync-small", 2000, 60), ("unsync-mid", 400, 400), ("sync-small", 2000, 60), ("sync-mid", 400, 400),
-      ("sync-eager", 600, 120), ("sync-far", 6000, 20), ("sync-burst", 7000, 4), ("sync-stale", 5000, 0), ("sync-grow", 1200, 2),
+      ("sync-eager", 600, 120), ("sync-far", 6000, 20), ("sync-burst", 7000, 4), ("sync-stale", 5000, 0), ("sync-flush", 60, 0), ("sync-grow", 1200, 2),
       ("unsync-batch", 120, 0), ("sync-batch", 12, 0), ("unsync-exp", 4000, 40), ("sync-exp", 2000, 40)]
 
 QSLICES = {
@@ -219,6 +219,7 @@ class Ctx:
         self.known_hits = {}
         self.known_history_fails = set()
         self.conform = 0
+        self.model_tags = {}
 
     def violation(self, path, what):
         if path not in [p for p, _ in self.violations]:
@@ -395,6 +396,13 @@ def stage_r(ctx, runs):
         beh = os.path.join(ctx.wd, name + ".beh.ndjson")
         n = parse_edges(outp, beh)
         os.remove(outp)
+        if c["module"] == "MC_Sync.tla":
+            # which maintenance steps of Layer I the emitted behaviours exercise (a step that never
+            # occurs was never compared with the code)
+            with open(beh) as f:
+                for line in f:
+                    for m in re.finditer(r'"t":"([a-z.]+)"', line[line.rfind('"last"'):]):
+                        ctx.model_tags[m.group(1)] = ctx.model_tags.get(m.group(1), 0) + 1
         trace = os.path.join(ctx.wd, name + ".trace.ndjson")
         summary, crashes = V.replay_file(beh, trace, only_bad=True)
         nbad = len(summary["mismatches"]) + len(summary["panics"]) + len(crashes)
@@ -738,6 +746,8 @@ def finish(ctx, level_note_extra=""):
         "known_findings": ctx.known,
         "notes": ctx.notes,
     }
+    if ctx.model_tags:
+        coverage["layer_I_maintenance_steps_replayed"] = dict(sorted(ctx.model_tags.items()))
     V.write_evidence(ctx.prop, ctx.tier, ctx.seed, "model_checking", coverage,
                      ["TLC and the CommunityModules JSON reader", "the read-only snapshot hooks report the truth",
                       "the mock clock stands in for Instant::now",
@@ -898,8 +908,8 @@ def run_c15(ctx, plan):
 # the concurrent cache under several threads (modes S and F)
 
 CONC_PROGS = {"ii": 2, "ii2": 2, "ixi": 2, "upd": 2, "rej": 2, "syncs": 2, "ia": 2, "wgt": 2, "xget": 2,
-              "ttl": 2, "tti": 2, "three": 3, "three2": 3, "burst": 2, "ttix": 2, "grow": 2, "iax": 2}
-CONC_QUICK = ["ii", "upd", "rej", "ixi", "wgt", "xget", "burst", "ttix", "grow", "iax"]
+              "ttl": 2, "tti": 2, "three": 3, "three2": 3, "burst": 2, "ttix": 2, "grow": 2, "iax": 2, "farw": 2, "farx": 2}
+CONC_QUICK = ["ii", "upd", "rej", "ixi", "wgt", "xget", "burst", "ttix", "grow", "iax", "farx"]
 CONC_LIGHT = ["ii", "rej", "syncs", "grow"]
 
 
